@@ -104,7 +104,7 @@ def value(kind, vid):
         x = {"a": True, "b": False}[vid]
         return x if kind == "bool" else np.bool_(x)
     if kind == "str":
-        return {"a": "x", "b": "yz", "u": NON_ASCII}[vid]
+        return {"a": "x", "b": "yz", "u": NON_ASCII, "t": "fuel  ", "sp": " ", "nl": "line\n", "tab": "\t", "ld": "  lead", "e": ""}[vid]
     raise AssertionError("unknown kind " + kind)
 
 
@@ -510,7 +510,7 @@ def describe(case):
 # ------------------------------------------------------------------------------------------------------------
 SHAPES = [[0], [1], [2], [3], [4], [2, 2], [1, 2], [2, 1], [3, 2], [2, 3], [1, 1]]
 VIDS = {"int": ["hi2", "b", "a", "z", "m1", "lo1", "lo3"], "float": ["a", "b", "nan", "pinf", "ninf", "nz", "fmax"],
-        "bool": ["a", "b"], "str": ["a", "b", "a", "b", "a", "b", "u"], "f32": ["a", "b", "pinf", "fmax"], "f64": ["a", "b", "nan", "pinf", "ninf", "nz"],
+        "bool": ["a", "b"], "str": ["a", "b", "a", "b", "t", "sp", "nl", "tab", "ld", "e", "u"], "f32": ["a", "b", "pinf", "fmax"], "f64": ["a", "b", "nan", "pinf", "ninf", "nz"],
         "b1": ["a", "b"]}
 for _k in ("i8", "i16", "i32", "i64"):
     VIDS[_k] = ["hi2", "b", "a", "z", "m1", "lo1", "lo3"]
@@ -846,10 +846,19 @@ def _account(rep, label, cases, results, rule, tile=1):
 # ------------------------------------------------------------------------------------------------------------
 # FlagCodec
 # ------------------------------------------------------------------------------------------------------------
-def flag_class(names):
+def flag_class(names, defn=None):
+    """a dense Flag class whose sortedFields() is ``names`` (bit i for names[i]).  ``defn`` is the order in which the fields
+    are defined (= list(fields())): in bit order they are auto(); any other order needs explicit bit values."""
     from armi.utils.flags import Flag, _FlagMeta, auto
 
-    return _FlagMeta("C05Flags", (Flag,), {n: auto() for n in names})
+    if defn is None or list(defn) == list(names):
+        return _FlagMeta("C05Flags", (Flag,), {n: auto() for n in names})
+    assert sorted(defn) == sorted(names)
+    return _FlagMeta("C05Flags", (Flag,), {n: 1 << list(names).index(n) for n in defn})
+
+
+def def_order(cls):
+    return list(cls.fields())
 
 
 def flag_of(cls, names):
@@ -909,7 +918,8 @@ def flags_roundtrip(W, sets, R, via_params=False):
 def run_flag_case(case, via_params=False):
     sc = scenario(case["w"], case["r"])
     try:
-        W, R = flag_class(case["w"]), flag_class(case["r"])
+        W, R = flag_class(case["w"], case.get("wd")), flag_class(case["r"], case.get("rd"))
+        assert list(W.sortedFields()) == list(case["w"]) and list(R.sortedFields()) == list(case["r"])
         rows, back, now = flags_roundtrip(W, case["sets"], R, via_params)
     except Exception as ex:  # noqa: BLE001
         return ("flags:error:" + sc, "flag round trip raises %s: %s" % (type(ex).__name__, str(ex)[:120])), {"error": repr(ex)}
@@ -929,7 +939,7 @@ def run_flag_unset(case):
     w = world()
     from armi.reactor import composites
 
-    W = flag_class(case["w"])
+    W = flag_class(case["w"], case.get("wd"))
     comps = [w.Node("o%d" % i) for i in range(2)]
     comps[1].p.fl = flag_of(W, case["w"][:1])
     g = w.group()
@@ -948,8 +958,8 @@ def run_flag_unset(case):
 def gen_flag_trace(tid, rng):
     pool = list("ABCDEFGHIJKLMNPQRS")
     names = rng.sample(pool, rng.randint(1, 12))
-    cls = flag_class(names)
-    tr = {"id": tid, "cls0": list(names), "ev": []}
+    cls = flag_class(names, rng.sample(names, len(names)) if rng.random() < 0.5 else None)
+    tr = {"id": tid, "cls0": list(cls.sortedFields()), "def0": def_order(cls), "ev": []}
     sets = [sorted(rng.sample(names, rng.randint(0, len(names)))) for _ in range(rng.randint(1, 4))]
     w = world()
     from armi.reactor import composites
@@ -960,29 +970,38 @@ def gen_flag_trace(tid, rng):
     g = w.group()
     ds = g.create_dataset("fl", data=data, compression="gzip")
     w.database.Database._writeAttrs(ds, g, attrs)
-    tr["ev"].append({"a": {"n": "Write", "sets": sets}, "post": {"cls": list(cls.sortedFields()), "phase": "stored",
-                                                                  "rows": ds[:].tolist()}})
+    tr["ev"].append({"a": {"n": "Write", "sets": sets}, "post": {"cls": list(cls.sortedFields()), "def": def_order(cls),
+                                                                  "phase": "stored", "rows": ds[:].tolist()}})
     for _ in range(rng.choice([0, 1, 1, 2, 3])):
         cur = list(cls.sortedFields())
         free = [n for n in pool if n not in cur]
-        if free and rng.random() < 0.5:
+        u = rng.random()
+        if len(free) >= 2 and u < 0.2:
+            x, y = rng.sample(free, 2)
+            cls.extend({x: 2 << len(cur)})  # the second free bit, explicitly
+            cls.extend({y: auto()})          # defined later, receives the first free bit
+            tr["ev"].append({"a": {"n": "ExtendPair", "x": x, "y": y},
+                             "post": {"cls": list(cls.sortedFields()), "def": def_order(cls), "phase": "stored"}})
+        elif free and u < 0.55:
             f = rng.choice(free)
             cls.extend({f: auto()})
-            tr["ev"].append({"a": {"n": "Extend", "f": f}, "post": {"cls": list(cls.sortedFields()), "phase": "stored"}})
+            tr["ev"].append({"a": {"n": "Extend", "f": f}, "post": {"cls": list(cls.sortedFields()), "def": def_order(cls),
+                                                                   "phase": "stored"}})
         else:
             o = rng.sample(pool, rng.randint(1, 12)) if rng.random() < 0.4 else rng.sample(cur, len(cur))
             if rng.random() < 0.3 and len(o) > 1:
                 o = o[:-1]
             if o == cur:
                 continue
-            cls = flag_class(o)
-            tr["ev"].append({"a": {"n": "Redefine", "o": o}, "post": {"cls": list(cls.sortedFields()), "phase": "stored"}})
+            cls = flag_class(o, rng.sample(o, len(o)) if rng.random() < 0.5 else None)
+            tr["ev"].append({"a": {"n": "Redefine", "o": o, "d": def_order(cls)},
+                             "post": {"cls": list(cls.sortedFields()), "def": def_order(cls), "phase": "stored"}})
     try:
         out = ser._unpackImpl(ds[:], ser.version, w.database.Database._resolveAttrs(ds.attrs, g), cls)
-        tr["ev"].append({"a": {"n": "Read"}, "post": {"cls": list(cls.sortedFields()), "phase": "read",
+        tr["ev"].append({"a": {"n": "Read"}, "post": {"cls": list(cls.sortedFields()), "def": def_order(cls), "phase": "read",
                                                       "back": [sorted(f._flagsOn()) for f in out]}})
     except Exception as ex:  # noqa: BLE001
-        tr["ev"].append({"a": {"n": "Read"}, "post": {"cls": list(cls.sortedFields()), "phase": "error", "back": [], "err": repr(ex)[:200]}})
+        tr["ev"].append({"a": {"n": "Read"}, "post": {"cls": list(cls.sortedFields()), "def": def_order(cls), "phase": "error", "back": [], "err": repr(ex)[:200]}})
     del w.file[g.name]
     return tr
 
@@ -1002,7 +1021,7 @@ def run_flag_codec(rep, thorough, seed):
     tlc.sany("FlagCodec_trace", MODDIR)
     all_cases, unset_cases = [], []
     # the emission configs carry every invariant and an always-true ACTION_CONSTRAINT: they are the exhaustive runs
-    for ecfg in (("FlagCodec_emit_thorough.cfg", "FlagCodec_wide_emit_thorough.cfg") if thorough else
+    for ecfg in (("FlagCodec_emit.cfg", "FlagCodec_emit_thorough.cfg", "FlagCodec_wide_emit_thorough.cfg") if thorough else
                  ("FlagCodec_emit.cfg", "FlagCodec_wide_emit.cfg")):
         eres = tlc.run("FlagCodec_mc", ecfg, MODDIR, workers=1, coverage=False, timeout=3000)
         if eres.violation:
@@ -1032,7 +1051,7 @@ def run_flag_codec(rep, thorough, seed):
     # the extension order of missing names is the code's own choice: one real run per (writer, sets, reader)
     uniq = {}
     for c in all_cases:
-        uniq.setdefault(json.dumps([c["w"], c["sets"], c["r"]]), c)
+        uniq.setdefault(json.dumps([c["w"], c.get("wd"), c["sets"], c["r"], c.get("rd")]), c)
     cases = list(uniq.values())
     if len(cases) < 500:
         raise tlc.MachineryError("FlagCodec emitted only %d distinct cases" % len(cases))
@@ -1108,6 +1127,10 @@ def run_whole_reactor(rep, cases, seed, n=260):
     import io
 
     quiet = io.StringIO()  # armi prints section headers of every reactor construction to stdout
+    # strings whose white space is part of the value always go through Database.load as well
+    blanks = [c for c in by_tag.get("plain:str", []) if any(
+        (e.get("v") in ("t", "sp", "nl", "tab", "ld", "e")) or any(v in ("t", "sp", "tab", "e") for v in e.get("vs", [])) for e in c["x"])]
+    pick += [c for c in blanks[:: max(1, len(blanks) // 16)] if c not in pick]
     with contextlib.redirect_stdout(quiet):
         o, r = loadTestReactor(inputFileName="smallestTestReactor/armiRunSmallest.yaml")
     circles = [c for c in r.core.iterChildren(deep=True) if isinstance(c, Circle)]
@@ -1315,6 +1338,10 @@ MUTANTS = [
            [("flattenedArray.extend(numpyArray.flatten())", 'flattenedArray.extend(numpyArray.ravel(order="K"))')]),
     Mutant("JaggedArray flattens with order='A' (Fortran arrays stored column major)", "armi.bookkeeping.db.jaggedArray:JaggedArray.__init__",
            [("flattenedArray.extend(numpyArray.flatten())", 'flattenedArray.extend(numpyArray.flatten(order="A"))')]),
+    Mutant("_readParams right-strips decoded strings", DBM + ":Database._readParams",
+           [("data = np.char.decode(data)", "data = np.char.rstrip(np.char.decode(data))")]),
+    Mutant("_writeParams strips strings before converting to bytes", DBM + ":Database._writeParams",
+           [('data = data.astype("S")', 'data = np.char.strip(data).astype("S")')]),
     Mutant("unicode -> bytes with errors='replace' (non-ASCII text stored as '?')", DBM + ":Database._writeParams",
            [('data = data.astype("S")', 'data = np.char.encode(data, "ascii", "replace")')]),
     Mutant("dict keys -> bytes with errors='replace'", DBM + ":packSpecialData",
@@ -1346,6 +1373,10 @@ MUTANTS = [
            needs="flags"),
     Mutant("Flag.to_bytes big endian, from_bytes little", "armi.utils.flags:Flag.to_bytes",
            [('def to_bytes(self, byteorder="little"):', 'def to_bytes(self, byteorder="big"):')], needs="flags"),
+    Mutant("flag_order attribute in definition order (fields()) instead of bit order", "armi.reactor.composites:FlagSerializer._packImpl",
+           [('{"flag_order": flagCls.sortedFields()}', '{"flag_order": list(flagCls.fields())}')], needs="flags"),
+    Mutant("reader class order taken from fields() instead of sortedFields()", "armi.reactor.composites:FlagSerializer._unpackImpl",
+           [("flagOrderNow = flagCls.sortedFields()\n\n    if all(", "flagOrderNow = list(flagCls.fields())\n\n    if all(")], needs="flags"),
     Mutant("flag_order attribute alphabetical instead of bit order", "armi.reactor.composites:FlagSerializer._packImpl",
            [('{"flag_order": flagCls.sortedFields()}', '{"flag_order": sorted(flagCls.fields())}')], needs="flags"),
     Mutant("missing flags are not added to the reader's class", "armi.reactor.composites:FlagSerializer._unpackImpl",
@@ -1409,7 +1440,7 @@ def selftest():
         fcases += [p for p in fr.prints if isinstance(p, dict) and "back" in p]
     uniq = {}
     for c in fcases:
-        uniq.setdefault(json.dumps([c["w"], c["sets"], c["r"]]), c)
+        uniq.setdefault(json.dumps([c["w"], c.get("wd"), c["sets"], c["r"], c.get("rd")]), c)
     fc = list(uniq.values())[::5]
     world()
     base = {n: set(_probe(pc, lc, fc, n)) for n in ("param", "legacy", "links", "flags")}
